@@ -138,10 +138,15 @@ int main() {
         static const std::vector<std::string> funcDefs = {
           "[\xCE\xB1\xE2\x88\x88\xE2\x84\xAC(X1)] \xCE\xB1\xE2\x88\xAAX1", "[\xCE\xB1\xE2\x88\x88\xE2\x84\xAC(X1), \xCE\xB2\xE2\x88\x88X1] \xCE\xB2\xE2\x88\x88\xCE\xB1",
           "F9:==[\xCE\xB1\xE2\x88\x88X1] {\xCE\xB1}", "[\xCE\xB1\xE2\x88\x88R1, \xCE\xB2\xE2\x88\x88\xE2\x84\xAC(R1)] \xCE\xB1\xE2\x88\x88\xCE\xB2" };
-        static const std::vector<std::string> plain = { "X1", "1=1", "X1\xE2\x88\xAAX2", "card(X1)+1", "Pr1(S1)" };
+        // (also: analyses that fail part-way - a recursion failing inside its re-typing rounds, a call with a wrong
+        // argument, an evaluation that hits a limit - followed by inputs whose answer includes WARNINGS)
+        static const std::vector<std::string> plain = { "X1", "1=1", "X1\xE2\x88\xAAX2", "card(X1)+1", "Pr1(S1)",
+          "\xE2\x88\x80\xCE\xBE\xE2\x88\x88X1 1=1", "D{\xCE\xBE\xE2\x88\x88X1 | 1=1}", "\xE2\x88\x80\xCE\xBE\xE2\x88\x88X1 \xCE\xBE=\xCE\xBE & \xE2\x88\x80\xCE\xBE\xE2\x88\x88X1 \xCE\xBE=\xCE\xBE" };
+        static const std::vector<std::string> partway = { "R{\xCE\xBE:=\xE2\x88\x85 | {\xCE\xBE}}", "R{\xCE\xBE:=\xE2\x88\x85 | \xCE\xBE\xE2\x88\xAAX1\xE2\x88\xAAPr1(\xCE\xBE)}", "R{\xCE\xBE:=\xE2\x88\x85 | 1=1 | \xE2\x84\xAC(\xCE\xBE)}",
+          "F1[X1, X1, X1]", "R{\xCE\xBE:=X1 | card(\xCE\xBE)}", "I{\xCE\xBE | \xCE\xBE:\xE2\x88\x88X1; \xCE\xBE:\xE2\x88\x88X1}", "\xE2\x88\x80\xCE\xBE\xE2\x88\x88X1 \xE2\x88\x80\xCE\xBE\xE2\x88\x88X1 \xCE\xBE=\xCE\xBE" };
         const int phase = i % 4;
         const bool directed = phase >= 2;
-        const auto& text = phase == 2 ? sub.pick(funcDefs) : (phase == 3 ? sub.pick(plain) : sub.pick(inputs()));
+        const auto& text = phase == 2 ? (sub.chance(1, 2) ? sub.pick(funcDefs) : sub.pick(partway)) : (phase == 3 ? sub.pick(plain) : sub.pick(inputs()));
         const auto hint = directed ? kHints[sub.range(0, 1)] : kHints[sub.range(0, 2)];
         const std::string tag = std::to_string(static_cast<int>(hint)) + " " + vh::hex(text);
         const int which = directed ? (sub.chance(2, 3) ? 1 : 3) : sub.range(0, 5);
